@@ -198,7 +198,7 @@ func constsSrc() string {
 			fmt.Fprintf(&sb, "\t%s = %d\n", c.name, c.i)
 		}
 	}
-	sb.WriteString(")\n\nvar sv = \"int64\"\nvar nv = 8\n\nfunc pf(n int) bool { return n > 0 }\nfunc f(n int) bool { return n > 1 }\n")
+	sb.WriteString(")\n\nvar sv = \"int64\"\nvar nv = 8\n\nfunc pf(n int) bool { return n > 0 }\nfunc f(n int) bool { return n > 1 }\nfunc isBig(ctx *dsl.VarFilterContext) bool { return ctx.SizeOf(ctx.Type) >= 8 }\n")
 	return sb.String()
 }
 
@@ -310,6 +310,9 @@ var bigs = []int64{420, 512, 64, 8}
 
 // an atom over the variable expression v; str / num give the spelling of arguments
 func atom(rng *rand.Rand, v *E, str func(string) *E, num func(int64) *E) *E {
+	if rng.Intn(4) == 0 {
+		return atom2(rng, v, str)
+	}
 	switch rng.Intn(13) {
 	case 0:
 		return sel(v, "Pure")
@@ -341,6 +344,50 @@ func atom(rng *rand.Rand, v *E, str func(string) *E, num func(int64) *E) *E {
 var textInBody bool
 
 func textConst(rng *rand.Rand) *E { return strSpellingsIn(rng, "a8", textInBody) }
+
+// the second variable of two-variable atoms, and the matcher expression for matcher-level predicates: set by the caller
+var otherVar func() *E
+var matcherExpr func() *E
+var outsideModel bool // the file uses a path whose argument is neither a string nor a filter expression
+
+// the rarer filter expressions: two variables, matcher-level predicates, a custom filter function
+func atom2(rng *rand.Rand, v *E, str func(string) *E) *E {
+	w := otherVar()
+	k := rng.Intn(13)
+	if (k == 4 || k == 5) && matcherExpr() == nil {
+		k = 8
+	}
+	switch k {
+	case 0: // the argument is read as matcher["name"], not converted: outside the Coq model's skeleton
+		outsideModel = true
+		return call(sel(sel(v, "Type"), "IdenticalTo"), w)
+	case 1:
+		return bin([]string{"==", "<", "!="}[rng.Intn(3)], sel(v, "Line"), sel(w, "Line"))
+	case 2:
+		return bin([]string{"==", ">"}[rng.Intn(2)], sel(sel(v, "Type"), "Size"), sel(sel(w, "Type"), "Size"))
+	case 3:
+		return call(sel(v, "Contains"), strSpellingsIn(rng, "$y", textInBody))
+	case 4:
+		return call(sel(call(sel(matcherExpr(), "File")), "Imports"), str("fmt"))
+	case 5:
+		return call(sel(call(sel(matcherExpr(), "GoVersion")), "GreaterEqThan"), strSpellingsIn(rng, "1.16", textInBody))
+	case 6:
+		return call(sel(sel(v, "Object"), "Is"), strSpellingsIn(rng, "Var", textInBody))
+	case 7:
+		return call(sel(call(sel(sel(v, "Type"), "Underlying")), "Is"), str(typeNames[rng.Intn(2)]))
+	case 8:
+		return sel(v, []string{"Addressable", "Comparable"}[rng.Intn(2)])
+	case 9:
+		return call(sel(sel(v, "Type"), "OfKind"), strSpellingsIn(rng, "int", textInBody))
+	case 10: // the argument is a function name: outside the Coq model's skeleton
+		outsideModel = true
+		return call(sel(v, "Filter"), ident("isBig"))
+	case 11:
+		return bin("==", sel(v, "Text"), sel(w, "Text"))
+	default:
+		return call(sel(sel(v, "Type"), "ConvertibleTo"), str(typeNames[rng.Intn(2)]))
+	}
+}
 
 // the generator's own inliner: every call of a helper of the group is replaced by the helper's body with the parameters
 // substituted simultaneously, and then the calls inside the result are replaced (its own tree, no go/ast involved)
@@ -558,6 +605,16 @@ func (sc *scope) genHelper(name string, earlier []*helper) *helper {
 		return e
 	}
 	textInBody = true
+	otherVar = varExpr
+	matcherExpr = func() *E {
+		if len(mats) > 0 && (matcherShadowed || rng.Intn(2) == 0) {
+			return ident(mats[0])
+		}
+		if matcherShadowed {
+			return nil
+		}
+		return ident(sc.matcher)
+	}
 	defer func() { textInBody = false }()
 	body := atom(rng, varExpr(), str, num)
 	for i := rng.Intn(3); i > 0; i-- {
@@ -905,6 +962,7 @@ type Case struct {
 	PNamed  bool   `json:"param_named"` // an identifier argument is spelled like a parameter of the called helper
 	Octal   bool   `json:"octal"`       // a helper body contains a legacy octal literal
 	Twice   bool   `json:"twice"`       // a helper is called more than once
+	Outside bool   `json:"outside_model"` // uses Type.IdenticalTo / Filter, whose argument the Coq skeleton does not model
 	Spell   string `json:"spelling,omitempty"`
 	Crash   bool   `json:"crash,omitempty"` // reported by the supervisor: the process died on this case
 }
@@ -958,8 +1016,9 @@ func main() {
 	id := 0
 	for i := 0; i < *nh; i++ {
 		id++
+		outsideModel = false
 		fc := genFileCase(rng)
-		c := Case{Kind: "helper", ID: id}
+		c := Case{Kind: "helper", ID: id, Outside: outsideModel}
 		c.SrcA = renderFile(fc, false)
 		c.SrcB = renderFile(fc, true)
 		if !announce(&c) {
@@ -970,7 +1029,9 @@ func main() {
 		c.IREqual = c.A.IR != "" && c.A.IR == c.B.IR
 		c.Groups, c.Same, c.PkgFunc, c.Unhyg, c.Nested, c.PNamed, c.Octal = len(fc.groups), fc.sameName, fc.pkgFunc, fc.unhyg, fc.nested, fc.paramNamed, fc.octal
 		c.Twice = fc.twice
-		c.Model = modelOf(c.SrcA)
+		if !outsideModel {
+			c.Model = modelOf(c.SrcA)
+		}
 		enc.Encode(c)
 		stdout.Flush()
 	}
